@@ -48,6 +48,10 @@ func (t *Track) Add(deltaticks uint32, msgs ...[]byte) {
 		return
 	}
 	for _, msg := range msgs {
+		// an end-of-track among the messages closes the track: what follows it is ignored
+		if t.IsClosed() {
+			return
+		}
 		ev := Event{Delta: deltaticks, Message: msg}
 		*t = append(*t, ev)
 		deltaticks = 0
